@@ -1087,7 +1087,30 @@ def pending_truncate_consumers(ctx, rep):
                 n += 1
                 allowed = ("nomt::rollback::Rollback::truncate", "nomt::rollback::Rollback::writeout_start", "nomt::rollback::InMemory::new")
                 rep.check(body.id in allowed, "O3", short(body.id), "pending_truncate|%s" % k, "InMemory.pending_truncate is modified at %s in %s (only Rollback::truncate sets it and writeout_start consumes it)" % (ln, short(body.id)), site=ln, detail="%s in %s" % (k, short(body.id)))
-    rep.floor("pending_truncate mutation sites", n, 2)
+    # set by truncate, and CONSUMED (cleared) by writeout_start: a pending truncation that is applied but never cleared is
+    # applied again by every later sync and cuts the records of later commits out of the log
+    roles = {}
+    for body in ctx.facts.bodies.values():
+        if body.id not in ("nomt::rollback::Rollback::truncate", "nomt::rollback::Rollback::writeout_start"):
+            continue
+        for b in range(body.n):
+            if body.is_cleanup(b):
+                continue
+            for s in body.stmts(b):
+                if s["k"] == "assign":
+                    if "pending_truncate" in fields_of(s["pl"]):
+                        roles.setdefault(body.id, set()).add("store")
+                    if s["rv"]["k"] == "ref" and s["rv"].get("mut") and "pending_truncate" in fields_of(s["rv"]["pl"]):
+                        # &mut handed to Option::take / replace / mem::take
+                        dest = s["pl"]["l"]
+                        for cb_, t_ in body.calls():
+                            if any(a["k"] in ("move", "copy") and a["pl"]["l"] == dest for a in t_["args"][:1]) and (t_.get("callee") or "").rsplit("::", 1)[-1] in ("take", "replace"):
+                                roles.setdefault(body.id, set()).add("clear")
+    n += 1
+    rep.check("store" in roles.get("nomt::rollback::Rollback::truncate", ()), "O3", "rollback::Rollback::truncate", "pending_truncate|set", "Rollback::truncate no longer records the pending truncation of the on-disk log", detail="in_memory.pending_truncate = Some(..)")
+    n += 1
+    ws = roles.get("nomt::rollback::Rollback::writeout_start", set())
+    rep.check("clear" in ws or "store" in ws, "O3", "rollback::Rollback::writeout_start", "pending_truncate|consumed", "writeout_start reads the pending truncation without clearing it: every later sync truncates the log again at the old point and discards the records of the commits made since", detail="pending_truncate.take()")
     return n
 
 
